@@ -84,7 +84,7 @@ if __name__ == "__main__":
         roots = ["/tmp/mut/out7"]
     paths = sorted(p for root in roots for P in props for p in glob.glob(f"{root}/{P}/m*")
                    if os.path.isdir(p) and os.path.exists(os.path.join(p, "notes.md")))
-    with ThreadPoolExecutor(12 if CHECKS_ONLY else 4) as ex:
+    with ThreadPoolExecutor(16 if CHECKS_ONLY else 4) as ex:
         for r in ex.map(one, paths):
             print(r["id"], "applies" if r.get("applies") else "NOAPPLY", "clean", r.get("demo_clean_rc"), "mut", r.get("demo_mutant_rc"),
                   "base", r.get("baseline_pass"), "fired", sorted((r.get("checks_fired") or {}).keys()), flush=True)
